@@ -776,16 +776,18 @@ func sortSortIntrinsic(ex *Exec, fr *Frame, st *State, reach string, a []Val, si
 	off, ln := v.L[1], v.L[2]
 	// outside the slice nothing changes
 	ex.sc.assert(fmt.Sprintf("(forall ((k Int)) (! (=> (or (< k %s) (>= k (+ %s %s))) (= (select %s k) (select %s k))) :pattern ((select %s k))))", off, off, ln, nw, old, nw))
-	// permutation with explicit witness functions
+	// permutation with explicit witness functions over absolute positions:
+	// nw[j] = old[pi(j)], old[j] = nw[inv(j)], pi and inv mutually inverse on the range
 	ex.envSeq++
 	pi := fmt.Sprintf("sort_pi_%d", ex.envSeq)
 	inv := fmt.Sprintf("sort_inv_%d", ex.envSeq)
 	ex.sc.fun(pi, []string{sInt}, sInt)
 	ex.sc.fun(inv, []string{sInt}, sInt)
-	ex.sc.assert(fmt.Sprintf("(forall ((k Int)) (! (=> (and (<= 0 k) (< k %s)) (and (<= 0 (%s k)) (< (%s k) %s) (= (%s (%s k)) k) (= (select %s (+ %s k)) (select %s (+ %s (%s k)))))) :pattern ((%s k))))",
-		ln, pi, pi, ln, inv, pi, nw, off, old, off, pi, pi))
-	ex.sc.assert(fmt.Sprintf("(forall ((k Int)) (! (=> (and (<= 0 k) (< k %s)) (and (<= 0 (%s k)) (< (%s k) %s) (= (%s (%s k)) k))) :pattern ((%s k))))",
-		ln, inv, inv, ln, pi, inv, inv))
+	hi := ex.sc.define("sorthi", sInt, mkAdd(off, ln))
+	ex.sc.assert(fmt.Sprintf("(forall ((j Int)) (! (=> (and (<= %s j) (< j %s)) (and (<= %s (%s j)) (< (%s j) %s) (= (%s (%s j)) j) (= (select %s j) (select %s (%s j))))) :pattern ((select %s j)) :pattern ((%s j))))",
+		off, hi, off, pi, pi, hi, inv, pi, nw, old, pi, nw, pi))
+	ex.sc.assert(fmt.Sprintf("(forall ((j Int)) (! (=> (and (<= %s j) (< j %s)) (and (<= %s (%s j)) (< (%s j) %s) (= (%s (%s j)) j) (= (select %s j) (select %s (%s j))))) :pattern ((select %s j)) :pattern ((%s j))))",
+		off, hi, off, inv, inv, hi, pi, inv, old, nw, inv, old, inv))
 	// element ranges are preserved
 	l := flatten(elem)[0]
 	ex.sc.assert(fmt.Sprintf("(forall ((k Int)) (! %s :pattern ((select %s k))))", scalarRange(l, mkSelect(nw, "k")), nw))
